@@ -22,14 +22,15 @@ theorem mem_sortQ {q : QItem} {l : List QItem} : q ∈ sortQ l ↔ q ∈ l := by
   unfold sortQ
   exact List.mem_mergeSort
 
-theorem mem_expiredLoaded {now : Int} {eng : List EShard} {q : QItem} :
-    q ∈ expiredLoaded now eng ↔
-      ∃ s ∈ eng, shardIsExpired now s.dur s.endT = true ∧ q = ⟨s.sid, s.gid, s.endT, s.dur, false⟩ := by
+theorem mem_expiredLoaded {now : Int} {eng : List EShard} {nm : List DurInfo} {q : QItem} :
+    q ∈ expiredLoaded now eng nm ↔
+      ∃ s ∈ eng, (nm.any fun i => i.sid == s.sid) = false ∧ shardIsExpired now s.dur s.endT = true ∧
+        q = ⟨s.sid, s.gid, s.endT, s.dur, false⟩ := by
   unfold expiredLoaded
-  simp only [List.mem_map, List.mem_filter]
+  simp only [List.mem_map, List.mem_filter, Bool.and_eq_true, Bool.not_eq_true']
   constructor
-  · rintro ⟨s, ⟨hs, he⟩, rfl⟩; exact ⟨s, hs, he, rfl⟩
-  · rintro ⟨s, hs, he, rfl⟩; exact ⟨s, ⟨hs, he⟩, rfl⟩
+  · rintro ⟨s, ⟨hs, hn, he⟩, rfl⟩; exact ⟨s, hs, hn, he, rfl⟩
+  · rintro ⟨s, hs, hn, he, rfl⟩; exact ⟨s, ⟨hs, hn, he⟩, rfl⟩
 
 theorem mem_expiredNil {now : Int} {res : List QItem} {nm : List DurInfo} {q : QItem} :
     q ∈ expiredNil now res nm ↔
@@ -48,7 +49,7 @@ theorem expiredShards_sound {now : Int} {eng : List EShard} {nm : List DurInfo} 
   unfold expiredShards at h
   simp only [List.mem_append] at h
   rcases h with h | h
-  · obtain ⟨s, _, he, rfl⟩ := mem_expiredLoaded.mp h
+  · obtain ⟨s, _, _, he, rfl⟩ := mem_expiredLoaded.mp h
     exact (shardIsExpired_iff _ _ _).mp he
   · obtain ⟨i, _, _, he, rfl⟩ := mem_expiredNil.mp h
     exact (nilShardIsExpired_iff _ _ _).mp he
@@ -149,5 +150,621 @@ theorem TimeInv.steps {σ : St} (h : TimeInv σ) (ops : List Op) : TimeInv (step
 
 theorem TimeInv.init (clock d : Int) (cat : List Group) : TimeInv (St.init clock d cat) :=
   ⟨by intro q hq; simp [St.init] at hq, by intro e he; simp [St.init] at he⟩
+
+/-! ### the catalogue transformations keep the skeleton of every group -/
+
+def Group.sids (g : Group) : List Nat := g.shards.map (·.sid)
+
+/-- same id, same time span, same shard ids (flags may differ). -/
+def Skel (g' g : Group) : Prop :=
+  g'.gid = g.gid ∧ g'.startT = g.startT ∧ g'.endT = g.endT ∧ g'.sids = g.sids
+
+theorem Skel.refl (g : Group) : Skel g g := ⟨rfl, rfl, rfl, rfl⟩
+
+theorem markFirstGE_sids (id : Nat) (l : List CShard) :
+    (markFirstGE id l).map (·.sid) = l.map (·.sid) := by
+  induction l with
+  | nil => rfl
+  | cons a r ih =>
+    simp only [markFirstGE]
+    split <;> simp [ih]
+
+theorem pruneGroup_skel (id : Nat) (g : Group) : Skel (pruneGroup id g) g := by
+  unfold pruneGroup
+  split
+  · split
+    · exact ⟨rfl, rfl, rfl, by simp [Group.sids, markFirstGE_sids]⟩
+    · exact Skel.refl g
+  · exact Skel.refl g
+
+theorem pruneGroup_deleted (id : Nat) (g : Group) : (pruneGroup id g).deleted = g.deleted := by
+  unfold pruneGroup
+  split
+  · split <;> rfl
+  · rfl
+
+theorem mem_markGroup {gid : Nat} {cat : List Group} {g' : Group} (h : g' ∈ markGroup gid cat) :
+    ∃ g ∈ cat, Skel g' g ∧ g'.shards = g.shards ∧
+      (g'.deleted = true → g.deleted = true ∨ g.gid = gid) := by
+  unfold markGroup at h
+  obtain ⟨g, hg, rfl⟩ := List.mem_map.mp h
+  refine ⟨g, hg, ?_⟩
+  split
+  · rename_i hc
+    exact ⟨⟨rfl, rfl, rfl, rfl⟩, rfl, fun _ => Or.inr (by simpa using hc)⟩
+  · exact ⟨Skel.refl g, rfl, fun hd => Or.inl hd⟩
+
+theorem mem_pruneCat {id : Nat} {cat : List Group} {g' : Group} (h : g' ∈ pruneCat id cat) :
+    ∃ g ∈ cat, Skel g' g ∧ g'.deleted = g.deleted := by
+  unfold pruneCat at h
+  obtain ⟨hm, _⟩ := List.mem_filter.mp h
+  obtain ⟨g, hg, rfl⟩ := List.mem_map.mp hm
+  exact ⟨g, hg, pruneGroup_skel id g, pruneGroup_deleted id g⟩
+
+theorem Skel.trans {a b c : Group} (h1 : Skel a b) (h2 : Skel b c) : Skel a c :=
+  ⟨h1.1.trans h2.1, h1.2.1.trans h2.2.1, h1.2.2.1.trans h2.2.2.1, h1.2.2.2.trans h2.2.2.2⟩
+
+theorem mem_markStage {ok : Bool} {gid : Nat} {cat : List Group} {g' : Group}
+    (h : g' ∈ markStage ok gid cat) :
+    ∃ g ∈ cat, Skel g' g ∧ g'.shards = g.shards ∧
+      (g'.deleted = true → g.deleted = true ∨ (ok = true ∧ g.gid = gid)) := by
+  unfold markStage at h
+  split at h
+  · rename_i hm
+    obtain ⟨g, hg, hs, hsh, hd⟩ := mem_markGroup h
+    exact ⟨g, hg, hs, hsh, fun hdel => (hd hdel).imp id fun x => ⟨hm, x⟩⟩
+  · exact ⟨g', h, Skel.refl g', rfl, fun hdel => Or.inl hdel⟩
+
+theorem mem_pruneStage {ok : Bool} {id : Nat} {cat : List Group} {g' : Group}
+    (h : g' ∈ pruneStage ok id cat) : ∃ g ∈ cat, Skel g' g ∧ g'.deleted = g.deleted := by
+  unfold pruneStage at h
+  split at h
+  · exact mem_pruneCat h
+  · exact ⟨g', h, Skel.refl g', rfl⟩
+
+/-- the catalogue after one loop iteration: every group is an old group, and a group that is
+deleted now was deleted before or is the group the iteration marked. -/
+theorem procItem_cat_back {o : Outcome} {q : QItem} {σ : St} {g' : Group}
+    (h : g' ∈ (procItem o q σ).cat) :
+    ∃ g ∈ σ.cat, Skel g' g ∧
+      (g'.deleted = true → g.deleted = true ∨ (o.markOk = true ∧ g.gid = q.gid)) := by
+  simp only [procItem] at h
+  obtain ⟨g1, hg1, hs1, hd1⟩ := mem_pruneStage h
+  obtain ⟨g, hg, hs, _, hd⟩ := mem_markStage hg1
+  exact ⟨g, hg, hs1.trans hs, fun hdel => hd (hd1 ▸ hdel)⟩
+
+theorem markStage_keep {ok : Bool} {gid : Nat} {cat : List Group} {g : Group}
+    (hg : g ∈ cat) (hnot : ¬ (ok = true ∧ g.gid = gid)) : g ∈ markStage ok gid cat := by
+  unfold markStage
+  split
+  · rename_i hm
+    unfold markGroup
+    refine List.mem_map.mpr ⟨g, hg, ?_⟩
+    have : (g.gid == gid) = false := by
+      cases hq : (g.gid == gid)
+      · rfl
+      · exact absurd ⟨hm, by simpa using hq⟩ hnot
+    simp [this]
+  · exact hg
+
+theorem pruneStage_keep {ok : Bool} {id : Nat} {cat : List Group} {g : Group}
+    (hg : g ∈ cat) (hlive : g.deleted = false) :
+    ∃ g' ∈ pruneStage ok id cat, Skel g' g ∧ g'.deleted = false := by
+  unfold pruneStage
+  split
+  · refine ⟨pruneGroup id g, ?_, pruneGroup_skel _ _, by rw [pruneGroup_deleted]; exact hlive⟩
+    unfold pruneCat
+    refine List.mem_filter.mpr ⟨List.mem_map.mpr ⟨g, hg, rfl⟩, ?_⟩
+    simp [pruneGroup_deleted, hlive]
+  · exact ⟨g, hg, Skel.refl g, hlive⟩
+
+/-- … and a live group that the iteration did not mark is still there, live. -/
+theorem procItem_cat_keep {o : Outcome} {q : QItem} {σ : St} {g : Group}
+    (hg : g ∈ σ.cat) (hlive : g.deleted = false) (hnot : ¬ (o.markOk = true ∧ g.gid = q.gid)) :
+    ∃ g' ∈ (procItem o q σ).cat, Skel g' g ∧ g'.deleted = false := by
+  simp only [procItem]
+  exact pruneStage_keep (markStage_keep hg hnot) hlive
+
+/-! ### invariant 2: identifiers and end times of store, run and catalogue agree -/
+
+theorem mem_durInfos {cat : List Group} {d : Int} {i : DurInfo} :
+    i ∈ durInfos cat d ↔ ∃ g ∈ cat, ∃ c ∈ g.shards, c.mine = true ∧ i = ⟨c.sid, g.gid, g.endT, d⟩ := by
+  unfold durInfos
+  simp only [List.mem_flatMap, List.mem_map, List.mem_filter]
+  constructor
+  · rintro ⟨g, hg, c, ⟨hc, hm⟩, rfl⟩; exact ⟨g, hg, c, hc, hm, rfl⟩
+  · rintro ⟨g, hg, c, hc, hm, rfl⟩; exact ⟨g, hg, c, ⟨hc, hm⟩, rfl⟩
+
+theorem updShard_sid (infos : List DurInfo) (s : EShard) : (updShard infos s).sid = s.sid := by
+  unfold updShard; split <;> (try split) <;> rfl
+
+theorem updShard_endT (infos : List DurInfo) (s : EShard) : (updShard infos s).endT = s.endT := by
+  unfold updShard; split <;> (try split) <;> rfl
+
+theorem updShard_idx (infos : List DurInfo) (s : EShard) : (updShard infos s).idx = s.idx := by
+  unfold updShard; split <;> (try split) <;> rfl
+
+theorem updShard_cases (infos : List DurInfo) (s : EShard) :
+    ((updShard infos s).gid = s.gid ∧ (updShard infos s).dur = s.dur) ∨
+    ∃ i ∈ infos, i.sid = s.sid ∧ (updShard infos s).gid = i.gid ∧ (updShard infos s).dur = i.dur := by
+  unfold updShard
+  split
+  · split
+    · rename_i i hf
+      refine Or.inr ⟨i, List.mem_of_find?_eq_some hf, ?_, rfl, rfl⟩
+      have := List.find?_some hf
+      simpa using this
+    · exact Or.inl ⟨rfl, rfl⟩
+  · exact Or.inl ⟨rfl, rfl⟩
+
+structure WFc (cat : List Group) (eng : List EShard) (nm : List DurInfo) (queue : List QItem)
+    (seen : List Int) : Prop where
+  gidPos : ∀ g ∈ cat, g.gid ≠ 0
+  gidEnd : ∀ g ∈ cat, ∀ g' ∈ cat, g.gid = g'.gid → g.endT = g'.endT
+  sidEnd : ∀ g ∈ cat, ∀ g' ∈ cat, ∀ x ∈ g.sids, x ∈ g'.sids → g.endT = g'.endT
+  engEnd : ∀ s ∈ eng, ∀ g ∈ cat, s.sid ∈ g.sids → g.endT = s.endT
+  engGid : ∀ s ∈ eng, ∀ g ∈ cat, g.gid = s.gid → g.endT = s.endT
+  nilGid : ∀ i ∈ nm, ∀ g ∈ cat, g.gid = i.gid → g.endT = i.endT
+  queueGid : ∀ q ∈ queue, ∀ g ∈ cat, g.gid = q.gid → g.endT = q.endT
+  seenEng : ∀ s ∈ eng, s.dur ∈ seen
+  seenNil : ∀ i ∈ nm, i.dur ∈ seen
+  seenQ : ∀ q ∈ queue, q.dUsed ∈ seen
+
+def WF (σ : St) : Prop := WFc σ.cat σ.eng σ.nilMap σ.queue σ.seen
+
+theorem WFc.seen_mono {cat eng nm queue seen seen'} (h : WFc cat eng nm queue seen)
+    (hs : ∀ x ∈ seen, x ∈ seen') : WFc cat eng nm queue seen' :=
+  ⟨h.gidPos, h.gidEnd, h.sidEnd, h.engEnd, h.engGid, h.nilGid, h.queueGid,
+    fun s hs' => hs _ (h.seenEng s hs'), fun i hi => hs _ (h.seenNil i hi), fun q hq => hs _ (h.seenQ q hq)⟩
+
+theorem WFc.sub {cat eng nm queue seen eng' queue'} (h : WFc cat eng nm queue seen)
+    (he : ∀ s ∈ eng', s ∈ eng) (hq : ∀ q ∈ queue', q ∈ queue) : WFc cat eng' nm queue' seen :=
+  ⟨h.gidPos, h.gidEnd, h.sidEnd, fun s hs => h.engEnd s (he s hs), fun s hs => h.engGid s (he s hs), h.nilGid,
+    fun q hq' => h.queueGid q (hq q hq'), fun s hs => h.seenEng s (he s hs), h.seenNil, fun q hq' => h.seenQ q (hq q hq')⟩
+
+theorem WFc.cat_skel {cat cat' eng nm queue seen} (h : WFc cat eng nm queue seen)
+    (hk : ∀ g' ∈ cat', ∃ g ∈ cat, Skel g' g) : WFc cat' eng nm queue seen := by
+  constructor
+  · intro g' hg'; obtain ⟨g, hg, hs⟩ := hk g' hg'; rw [hs.1]; exact h.gidPos g hg
+  · intro a ha b hb hab
+    obtain ⟨g, hg, hs⟩ := hk a ha; obtain ⟨g2, hg2, hs2⟩ := hk b hb
+    rw [hs.2.2.1, hs2.2.2.1]; exact h.gidEnd g hg g2 hg2 (by rw [← hs.1, ← hs2.1]; exact hab)
+  · intro a ha b hb x hx hx'
+    obtain ⟨g, hg, hs⟩ := hk a ha; obtain ⟨g2, hg2, hs2⟩ := hk b hb
+    rw [hs.2.2.1, hs2.2.2.1]; exact h.sidEnd g hg g2 hg2 x (hs.2.2.2 ▸ hx) (hs2.2.2.2 ▸ hx')
+  · intro s hs a ha hx
+    obtain ⟨g, hg, hk'⟩ := hk a ha
+    rw [hk'.2.2.1]; exact h.engEnd s hs g hg (hk'.2.2.2 ▸ hx)
+  · intro s hs a ha hx
+    obtain ⟨g, hg, hk'⟩ := hk a ha
+    rw [hk'.2.2.1]; exact h.engGid s hs g hg (hk'.1 ▸ hx)
+  · intro i hi a ha hx
+    obtain ⟨g, hg, hk'⟩ := hk a ha
+    rw [hk'.2.2.1]; exact h.nilGid i hi g hg (hk'.1 ▸ hx)
+  · intro q hq a ha hx
+    obtain ⟨g, hg, hk'⟩ := hk a ha
+    rw [hk'.2.2.1]; exact h.queueGid q hq g hg (hk'.1 ▸ hx)
+  · exact h.seenEng
+  · exact h.seenNil
+  · exact h.seenQ
+
+theorem completeAll_cat (l : List Nat) (σ : St) : (completeAll l σ).cat = σ.cat := by
+  induction l generalizing σ with
+  | nil => rfl
+  | cons a r ih => simp [completeAll, ih]
+
+theorem completeAll_seen (l : List Nat) (σ : St) : (completeAll l σ).seen = σ.seen := by
+  induction l generalizing σ with
+  | nil => rfl
+  | cons a r ih => simp [completeAll, ih]
+
+theorem completeAll_nilMap (l : List Nat) (σ : St) : (completeAll l σ).nilMap = σ.nilMap := by
+  induction l generalizing σ with
+  | nil => rfl
+  | cons a r ih => simp [completeAll, ih]
+
+theorem mem_delEng {r : DelRes} {sid : Nat} {eng : List EShard} {s : EShard}
+    (h : s ∈ delEng r sid eng) : s ∈ eng := by
+  unfold delEng at h
+  split at h
+  · exact (List.mem_filter.mp h).1
+  · exact (List.mem_filter.mp h).1
+  · exact h
+
+theorem completeAll_eng_sub (l : List Nat) (σ : St) : ∀ s ∈ (completeAll l σ).eng, s ∈ σ.eng := by
+  induction l generalizing σ with
+  | nil => intro s hs; exact hs
+  | cons a r ih =>
+    intro s hs
+    simp only [completeAll] at hs
+    exact mem_delEng (ih _ s hs)
+
+theorem WF.step {σ : St} (h : WF σ) (op : Op) : WF (step σ op) := by
+  unfold WF at h ⊢
+  cases op with
+  | tick dt =>
+    simp only [OG.C14.step]
+    split <;> exact h
+  | alter d => exact h
+  | load sid =>
+    simp only [OG.C14.step, loadShard]
+    split
+    · exact h
+    · split
+      · rename_i i hf
+        have hi := List.mem_of_find?_eq_some hf
+        have hsid : i.sid = sid := by simpa using List.find?_some hf
+        obtain ⟨g1, hg1, c, hc, _, rfl⟩ := mem_durInfos.mp hi
+        have hcs : c.sid ∈ g1.sids := List.mem_map.mpr ⟨c, hc, rfl⟩
+        simp only at hsid
+        have h' := h.seen_mono (seen' := σ.metaDur :: σ.seen) (fun x hx => List.mem_cons_of_mem _ hx)
+        refine ⟨h'.gidPos, h'.gidEnd, h'.sidEnd, ?_, ?_, h'.nilGid, h'.queueGid, ?_, h'.seenNil, h'.seenQ⟩
+        · intro s hs g hg hx
+          rcases List.mem_append.mp hs with hs | hs
+          · exact h.engEnd s hs g hg hx
+          · simp only [List.mem_singleton] at hs; subst hs
+            simp only at hx ⊢
+            exact h.sidEnd g hg g1 hg1 sid hx (hsid ▸ hcs)
+        · intro s hs g hg hx
+          rcases List.mem_append.mp hs with hs | hs
+          · exact h.engGid s hs g hg hx
+          · simp only [List.mem_singleton] at hs; subst hs
+            exact absurd hx (h.gidPos g hg)
+        · intro s hs
+          rcases List.mem_append.mp hs with hs | hs
+          · exact h'.seenEng s hs
+          · simp only [List.mem_singleton] at hs; subst hs
+            exact List.mem_cons_self
+      · exact h
+  | close sid =>
+    simp only [OG.C14.step]
+    refine ⟨h.gidPos, h.gidEnd, h.sidEnd, ?_, ?_, h.nilGid, h.queueGid, ?_, h.seenNil, h.seenQ⟩
+    · intro s hs g hg hx
+      obtain ⟨s0, hs0, rfl⟩ := List.mem_map.mp hs
+      have := h.engEnd s0 hs0 g hg
+      split at hx <;> split <;> simp_all
+    · intro s hs g hg hx
+      obtain ⟨s0, hs0, rfl⟩ := List.mem_map.mp hs
+      have := h.engGid s0 hs0 g hg
+      split at hx <;> split <;> simp_all
+    · intro s hs
+      obtain ⟨s0, hs0, rfl⟩ := List.mem_map.mp hs
+      have := h.seenEng s0 hs0
+      split <;> simp_all
+  | refresh ok =>
+    simp only [OG.C14.step]
+    split
+    · split
+      · simp only [refreshOk]
+        have h' := h.seen_mono (seen' := σ.metaDur :: σ.seen) (fun x hx => List.mem_cons_of_mem _ hx)
+        have hinfo : ∀ i ∈ durInfos σ.cat σ.metaDur, i.dur = σ.metaDur ∧
+            ∀ g ∈ σ.cat, g.gid = i.gid → g.endT = i.endT := by
+          intro i hi
+          obtain ⟨g1, hg1, c, _, _, rfl⟩ := mem_durInfos.mp hi
+          exact ⟨rfl, fun g hg hx => h.gidEnd g hg g1 hg1 hx⟩
+        refine ⟨h'.gidPos, h'.gidEnd, h'.sidEnd, ?_, ?_, ?_, h'.queueGid, ?_, ?_, h'.seenQ⟩
+        · intro s hs g hg hx
+          obtain ⟨s0, hs0, rfl⟩ := List.mem_map.mp hs
+          rw [updShard_sid] at hx; rw [updShard_endT]
+          exact h.engEnd s0 hs0 g hg hx
+        · intro s hs g hg hx
+          obtain ⟨s0, hs0, rfl⟩ := List.mem_map.mp hs
+          rw [updShard_endT]
+          rcases updShard_cases (durInfos σ.cat σ.metaDur) s0 with ⟨h1, _⟩ | ⟨i, hi, hsid, h1, _⟩
+          · exact h.engGid s0 hs0 g hg (h1 ▸ hx)
+          · obtain ⟨g1, hg1, c, hc, _, rfl⟩ := mem_durInfos.mp hi
+            simp only at hsid h1
+            have e1 : g.endT = g1.endT := h.gidEnd g hg g1 hg1 (by rw [hx, h1])
+            have e2 : g1.endT = s0.endT :=
+              h.engEnd s0 hs0 g1 hg1 (hsid ▸ List.mem_map.mpr ⟨c, hc, rfl⟩)
+            rw [e1, e2]
+        · intro i hi g hg hx
+          exact (hinfo i (List.mem_filter.mp hi).1).2 g hg hx
+        · intro s hs
+          obtain ⟨s0, hs0, rfl⟩ := List.mem_map.mp hs
+          rcases updShard_cases (durInfos σ.cat σ.metaDur) s0 with ⟨_, h2⟩ | ⟨i, hi, _, _, h2⟩
+          · rw [h2]; exact h'.seenEng s0 hs0
+          · rw [h2, (hinfo i hi).1]; exact List.mem_cons_self
+        · intro i hi
+          rw [(hinfo i (List.mem_filter.mp hi).1).1]; exact List.mem_cons_self
+      · exact h
+    · exact h
+  | collect =>
+    simp only [OG.C14.step]
+    split
+    · simp only [OG.C14.collect]
+      refine ⟨h.gidPos, h.gidEnd, h.sidEnd, h.engEnd, h.engGid, h.nilGid, ?_, h.seenEng, h.seenNil, ?_⟩
+      · intro q hq g hg hx
+        have hq := mem_sortQ.mp hq
+        unfold expiredShards at hq
+        rcases List.mem_append.mp hq with hq | hq
+        · obtain ⟨s, hs, _, _, rfl⟩ := mem_expiredLoaded.mp hq
+          exact h.engGid s hs g hg hx
+        · obtain ⟨i, hi, _, _, rfl⟩ := mem_expiredNil.mp hq
+          exact h.nilGid i hi g hg hx
+      · intro q hq
+        have hq := mem_sortQ.mp hq
+        unfold expiredShards at hq
+        rcases List.mem_append.mp hq with hq | hq
+        · obtain ⟨s, hs, _, _, rfl⟩ := mem_expiredLoaded.mp hq
+          exact h.seenEng s hs
+        · obtain ⟨i, hi, _, _, rfl⟩ := mem_expiredNil.mp hq
+          exact h.seenNil i hi
+    · exact h
+  | proc o =>
+    simp only [OG.C14.step]
+    split
+    · rename_i q rest hph hq
+      have h1 : WFc (procItem o q σ).cat σ.eng σ.nilMap σ.queue σ.seen :=
+        h.cat_skel (fun g' hg' => by
+          obtain ⟨g, hg, hs, _⟩ := procItem_cat_back hg'
+          exact ⟨g, hg, hs⟩)
+      exact h1.sub (fun s hs => mem_delEng hs) (fun q' hq' => by rw [hq]; exact List.mem_cons_of_mem _ hq')
+    · exact h
+  | complete =>
+    simp only [OG.C14.step]
+    rw [completeAll_cat, completeAll_seen, completeAll_nilMap, completeAll_queue]
+    exact h.sub (completeAll_eng_sub _ _) (fun q hq => hq)
+
+/-! ### invariant 3: a group of the initial catalogue is live, or its marking is on record -/
+
+def GI (cat0 : List Group) (σ : St) : Prop :=
+  ∀ g0 ∈ cat0, g0.deleted = false →
+    (∃ g ∈ σ.cat, g.gid = g0.gid ∧ g.startT = g0.startT ∧ g.endT = g0.endT ∧ g.deleted = false) ∨
+    (∃ e ∈ σ.log, e.kind = .markedGroup ∧ e.id = g0.gid ∧ e.endT = g0.endT ∧ e.d ∈ σ.seen)
+
+theorem GI.of_eq {cat0 : List Group} {σ σ' : St} (h : GI cat0 σ) (hc : σ'.cat = σ.cat)
+    (hl : σ'.log = σ.log) (hs : ∀ x ∈ σ.seen, x ∈ σ'.seen) : GI cat0 σ' := by
+  intro g0 hg0 hd
+  rcases h g0 hg0 hd with ⟨g, hg, hh⟩ | ⟨e, he, h1, h2, h3, h4⟩
+  · exact Or.inl ⟨g, hc ▸ hg, hh⟩
+  · exact Or.inr ⟨e, hl ▸ he, h1, h2, h3, hs _ h4⟩
+
+theorem GI.step {cat0 : List Group} {σ : St} (hw : WF σ) (h : GI cat0 σ) (op : Op) :
+    GI cat0 (step σ op) := by
+  cases op with
+  | tick dt =>
+    simp only [OG.C14.step]
+    split
+    · exact h.of_eq rfl rfl (fun x hx => hx)
+    · exact h
+  | alter d => exact h.of_eq rfl rfl (fun x hx => hx)
+  | load sid =>
+    simp only [OG.C14.step, loadShard]
+    split
+    · exact h
+    · split
+      · exact h.of_eq rfl rfl (fun x hx => List.mem_cons_of_mem _ hx)
+      · exact h
+  | close sid => exact h.of_eq rfl rfl (fun x hx => hx)
+  | refresh ok =>
+    simp only [OG.C14.step]
+    split
+    · split
+      · exact h.of_eq rfl rfl (fun x hx => List.mem_cons_of_mem _ hx)
+      · exact h
+    · exact h
+  | collect =>
+    simp only [OG.C14.step]
+    split
+    · exact h.of_eq rfl rfl (fun x hx => hx)
+    · exact h
+  | proc o =>
+    simp only [OG.C14.step]
+    split
+    · rename_i q rest hph hq
+      have hqm : q ∈ σ.queue := by rw [hq]; exact List.mem_cons_self
+      intro g0 hg0 hd
+      rcases h g0 hg0 hd with ⟨g, hg, e1, e2, e3, hlive⟩ | ⟨e, he, h1, h2, h3, h4⟩
+      · by_cases hm : o.markOk = true ∧ g.gid = q.gid
+        · -- this iteration marks the group: the event is on record
+          refine Or.inr ⟨⟨.markedGroup, q.gid, q.endT, q.dUsed, σ.clock⟩, ?_, rfl, ?_, ?_, ?_⟩
+          · simp only [procItem]
+            refine List.mem_append_left _ ?_
+            unfold evs
+            simp [hm.1]
+          · simp only; rw [← hm.2, e1]
+          · simp only; rw [← hw.queueGid q hqm g hg hm.2, e3]
+          · exact hw.seenQ q hqm
+        · obtain ⟨g', hg', hs, hl'⟩ := procItem_cat_keep (o := o) (q := q) hg hlive hm
+          exact Or.inl ⟨g', hg', hs.1.trans e1, hs.2.1.trans e2, hs.2.2.1.trans e3, hl'⟩
+      · refine Or.inr ⟨e, ?_, h1, h2, h3, h4⟩
+        simp only [procItem]
+        exact List.mem_append_right _ he
+    · exact h
+  | complete =>
+    simp only [OG.C14.step]
+    exact h.of_eq (by rw [completeAll_cat]) (by rw [completeAll_log]) (fun x hx => by rw [completeAll_seen]; exact hx)
+
+/-! ### nothing leaves the store, and no group is marked, without a record -/
+
+/-- a delete that timed out is on record (it was issued for an expired shard). -/
+def PendInv (σ : St) : Prop :=
+  ∀ sid ∈ σ.pending, ∃ e ∈ σ.log, e.kind = .deletedShard ∧ e.id = sid
+
+theorem completeAll_eng_keep (l : List Nat) (σ : St) (s : EShard) (hs : s ∈ σ.eng) (hn : s.sid ∉ l) :
+    s ∈ (completeAll l σ).eng := by
+  induction l generalizing σ with
+  | nil => exact hs
+  | cons a r ih =>
+    simp only [completeAll]
+    apply ih
+    · simp only
+      unfold delEng
+      have hne : (s.sid != a) = true := by
+        simp only [bne_iff_ne, ne_eq]
+        intro h; exact hn (h ▸ List.mem_cons_self)
+      split
+      · exact List.mem_filter.mpr ⟨hs, hne⟩
+      · exact List.mem_filter.mpr ⟨hs, hne⟩
+      · exact hs
+    · intro h; exact hn (List.mem_cons_of_mem _ h)
+
+theorem PendInv.step {σ : St} (h : PendInv σ) (op : Op) : PendInv (step σ op) := by
+  cases op with
+  | tick dt => simp only [OG.C14.step]; split <;> exact h
+  | alter d => exact h
+  | load sid =>
+    simp only [OG.C14.step, loadShard]
+    split
+    · exact h
+    · split <;> exact h
+  | close sid => exact h
+  | refresh ok =>
+    simp only [OG.C14.step]
+    split
+    · split <;> exact h
+    · exact h
+  | collect =>
+    simp only [OG.C14.step]
+    split <;> exact h
+  | proc o =>
+    simp only [OG.C14.step]
+    split
+    · rename_i q rest hph hq
+      intro sid hsid
+      simp only [procItem] at hsid ⊢
+      unfold delPending at hsid
+      split at hsid
+      · rename_i hr
+        rcases List.mem_cons.mp hsid with rfl | hsid
+        · refine ⟨⟨.deletedShard, q.sid, q.endT, q.dUsed, σ.clock⟩, ?_, rfl, rfl⟩
+          refine List.mem_append_left _ ?_
+          unfold evs
+          simp [hr]
+        · obtain ⟨e, he, hh⟩ := h sid hsid
+          exact ⟨e, List.mem_append_right _ he, hh⟩
+      · obtain ⟨e, he, hh⟩ := h sid hsid
+        exact ⟨e, List.mem_append_right _ he, hh⟩
+    · exact h
+  | complete =>
+    simp only [OG.C14.step]
+    intro sid hsid
+    have : (completeAll σ.pending { σ with pending := [] }).pending = [] := by
+      generalize σ.pending = l
+      generalize hσ' : ({ σ with pending := [] } : St) = σ'
+      have hp : σ'.pending = [] := by rw [← hσ']
+      clear hσ'
+      induction l generalizing σ' with
+      | nil => exact hp
+      | cons a r ih => simp only [completeAll]; exact ih _ hp
+    rw [this] at hsid
+    exact absurd hsid (by simp)
+
+/-- a shard object leaves the store only through a recorded delete. -/
+theorem shard_leaves_logged {σ : St} (hp : PendInv σ) (op : Op) (s : EShard) (hs : s ∈ σ.eng)
+    (hgone : ∀ s' ∈ (step σ op).eng, s'.sid ≠ s.sid) :
+    ∃ e ∈ (step σ op).log, e.kind = .deletedShard ∧ e.id = s.sid := by
+  cases op with
+  | tick dt =>
+    simp only [OG.C14.step] at hgone
+    split at hgone <;> exact absurd rfl (hgone s hs)
+  | alter d => exact absurd rfl (hgone s hs)
+  | load sid =>
+    simp only [OG.C14.step, loadShard] at hgone
+    split at hgone
+    · exact absurd rfl (hgone s hs)
+    · split at hgone
+      · exact absurd rfl (hgone s (List.mem_append_left _ hs))
+      · exact absurd rfl (hgone s hs)
+  | close sid =>
+    simp only [OG.C14.step] at hgone
+    have := hgone _ (List.mem_map.mpr ⟨s, hs, rfl⟩)
+    split at this <;> exact absurd rfl this
+  | refresh ok =>
+    simp only [OG.C14.step] at hgone
+    split at hgone
+    · split at hgone
+      · have := hgone _ (List.mem_map.mpr ⟨s, hs, rfl⟩)
+        rw [updShard_sid] at this
+        exact absurd rfl this
+      · exact absurd rfl (hgone s hs)
+    · exact absurd rfl (hgone s hs)
+  | collect =>
+    simp only [OG.C14.step] at hgone
+    split at hgone <;> exact absurd rfl (hgone s hs)
+  | proc o =>
+    simp only [OG.C14.step] at hgone ⊢
+    split at hgone
+    · rename_i q rest hph hq
+      simp only [procItem] at hgone ⊢
+      by_cases hr : delRes o.del q.sid σ.eng σ.pending = .ok ∨ delRes o.del q.sid σ.eng σ.pending = .closedErr
+      · by_cases hsid : s.sid = q.sid
+        · refine ⟨⟨.deletedShard, q.sid, q.endT, q.dUsed, σ.clock⟩, ?_, rfl, hsid.symm⟩
+          refine List.mem_append_left _ ?_
+          unfold evs
+          rcases hr with hr | hr <;> simp [hr]
+        · exfalso
+          refine hgone s ?_ rfl
+          unfold delEng
+          have hne : (s.sid != q.sid) = true := by simpa using hsid
+          split
+          · exact List.mem_filter.mpr ⟨hs, hne⟩
+          · exact List.mem_filter.mpr ⟨hs, hne⟩
+          · exact hs
+      · exfalso
+        refine hgone s ?_ rfl
+        unfold delEng
+        split
+        · rename_i h1; exact absurd (Or.inl h1) hr
+        · rename_i h1; exact absurd (Or.inr h1) hr
+        · exact hs
+    · exact absurd rfl (hgone s hs)
+  | complete =>
+    simp only [OG.C14.step] at hgone ⊢
+    rw [completeAll_log]
+    by_cases hin : s.sid ∈ σ.pending
+    · exact hp s.sid hin
+    · exact absurd rfl (hgone s (completeAll_eng_keep _ _ s hs hin))
+
+/-- a live group stops being live only through a recorded mark. -/
+theorem group_marked_logged {σ : St} (op : Op) (g : Group) (hg : g ∈ σ.cat) (hlive : g.deleted = false)
+    (hgone : ∀ g' ∈ (step σ op).cat, g'.gid = g.gid → g'.deleted = true) :
+    ∃ e ∈ (step σ op).log, e.kind = .markedGroup ∧ e.id = g.gid := by
+  have same : ∀ σ' : St, σ'.cat = σ.cat → (∀ g' ∈ σ'.cat, g'.gid = g.gid → g'.deleted = true) → False := by
+    intro σ' hc hh
+    have := hh g (hc ▸ hg) rfl
+    rw [hlive] at this; exact Bool.noConfusion this
+  cases op with
+  | tick dt =>
+    simp only [OG.C14.step] at hgone
+    split at hgone <;> exact (same _ rfl hgone).elim
+  | alter d => exact (same _ rfl hgone).elim
+  | load sid =>
+    simp only [OG.C14.step, loadShard] at hgone
+    split at hgone
+    · exact (same _ rfl hgone).elim
+    · split at hgone <;> exact (same _ rfl hgone).elim
+  | close sid => exact (same _ rfl hgone).elim
+  | refresh ok =>
+    simp only [OG.C14.step] at hgone
+    split at hgone
+    · split at hgone <;> exact (same _ rfl hgone).elim
+    · exact (same _ rfl hgone).elim
+  | collect =>
+    simp only [OG.C14.step] at hgone
+    split at hgone <;> exact (same _ rfl hgone).elim
+  | proc o =>
+    simp only [OG.C14.step] at hgone ⊢
+    split at hgone
+    · rename_i q rest hph hq
+      by_cases hm : o.markOk = true ∧ g.gid = q.gid
+      · refine ⟨⟨.markedGroup, q.gid, q.endT, q.dUsed, σ.clock⟩, ?_, rfl, hm.2.symm⟩
+        simp only [procItem]
+        refine List.mem_append_left _ ?_
+        unfold evs
+        simp [hm.1]
+      · obtain ⟨g', hg', hs, hl'⟩ := procItem_cat_keep (o := o) (q := q) hg hlive hm
+        have := hgone g' hg' hs.1
+        rw [hl'] at this; exact Bool.noConfusion this
+    · exact (same _ rfl hgone).elim
+  | complete =>
+    simp only [OG.C14.step] at hgone
+    exact (same _ (by rw [completeAll_cat]) hgone).elim
+
+theorem WF.steps {σ : St} (h : WF σ) (ops : List Op) : WF (steps σ ops) := by
+  induction ops generalizing σ with
+  | nil => exact h
+  | cons op r ih => exact ih (h.step op)
 
 end OG.C14
